@@ -4,7 +4,9 @@ import Driver.Util
 namespace Driver.Partitioner
 open Afkak.Partitioner Afkak.Murmur Afkak.Monitor.C18 Driver
 
-abbrev St := Option RR
+structure St where
+  rr : Option RR := none
+  pm : PMap := []
 
 def optInt : Option Int → String
   | some i => s!"int {i}"
@@ -23,12 +25,18 @@ def step (st : St) (line : String) : St × List String :=
     | _, _ => (st, ["bad-op"])
   | ["rr-new", ps, start] => match parseInts ps, parseOptNat start with
     | some ps, some start => match setPartitions ps start with
-      | some s => (some s, ["ok"])
-      | none => (none, ["error"])
+      | some s => ({ st with rr := some s }, ["ok"])
+      | none => ({ st with rr := none }, ["error"])
     | _, _ => (st, ["bad-op"])
-  | ["rr-pick", ps, start] => match st, parseInts ps, parseOptNat start with
+  | ["prod-reset"] => ({ st with pm := [] }, ["ok"])
+  | ["prod-next", topic, ps, start] => match parseInts ps, parseOptNat start with
+    | some ps, some start => match nextPartitionRR st.pm topic ps start with
+      | some (x, pm') => ({ st with pm := pm' }, [s!"int {x}"])
+      | none => (st, ["error"])
+    | _, _ => (st, ["bad-op"])
+  | ["rr-pick", ps, start] => match st.rr, parseInts ps, parseOptNat start with
     | some s, some ps, some start => match rrPartition s ps start with
-      | some (x, s') => (some s', [s!"int {x}"])
+      | some (x, s') => ({ st with rr := some s' }, [s!"int {x}"])
       | none => (st, ["error"])
     | _, _, _ => (st, ["bad-op"])
   | ["mon-hash", hex, ps, r] => match parseHex hex, parseInts ps, r.toInt? with
@@ -42,5 +50,5 @@ def step (st : St) (line : String) : St × List String :=
 end Driver.Partitioner
 
 def main : IO UInt32 := do
-  Driver.loop (← IO.getStdin) (← IO.getStdout) (none : Driver.Partitioner.St) Driver.Partitioner.step
+  Driver.loop (← IO.getStdin) (← IO.getStdout) ({} : Driver.Partitioner.St) Driver.Partitioner.step
   return 0
